@@ -166,7 +166,7 @@ class Engine:
         if isinstance(cls, type) and issubclass(cls, BaseException):
             return stamp(SObj(cls))
         if cls in (list, tuple, set, dict, int, str, bool, len, range, collections.OrderedDict, collections.defaultdict,
-                   frozenset, bytes):
+                   frozenset, bytes, enumerate, zip, reversed, type, super):
             return self.builtin(I, cls, args, kwargs, node)
         if cls.__module__ and (cls.__module__.startswith("pyteal") or cls.__module__.startswith("feature_gates")):
             obj = stamp(SObj(cls))
@@ -285,13 +285,21 @@ class Engine:
             n = obj.length
             if st is None or st == 1:
                 lo = 0 if lo is None else lo
-                hi = n if hi is None else hi
-                if not (isinstance(lo, int) and lo >= 0) or not (hi is n or (isinstance(hi, int) and hi >= 0)):
-                    raise Unsupported("general symbolic slice")
-                if hi is n:
+                if is_z3(lo):
+                    if I.ctx.branch(lo < 0):
+                        raise Unsupported("slice with a possibly negative lower bound")
+                elif lo < 0:
+                    raise Unsupported("slice with negative lower bound")
+                if hi is None:
                     ln = z3.If(n - lo >= 0, n - lo, 0)
-                else:
-                    raise Unsupported("slice with upper bound")
+                    return SListView(obj, lo, 1, ln)
+                if is_z3(hi):
+                    if I.ctx.branch(hi < 0):
+                        raise Unsupported("slice with a possibly negative upper bound")
+                elif hi < 0:
+                    raise Unsupported("slice with negative upper bound")
+                top = z3.If(hi <= n, hi, n)
+                ln = z3.If(top - lo >= 0, top - lo, 0)
                 return SListView(obj, lo, 1, ln)
             if st == -1 and lo is None and hi is None:
                 return SListView(obj, n - 1, -1, n)
